@@ -39,8 +39,8 @@ S_OTHER = {"type": "record", "name": "Other", "fields": [{"name": "zz", "type": 
 Z = {"type": "record", "name": "Zero", "fields": [{"name": "n", "type": "null"}]}
 
 OPS_S = ["w_small", "w_large", "w_bad_first", "w_bad_last", "flush", "copy_null", "copy_deflate", "copyiter_null",
-         "reopen_none", "reopen_same", "reopen_diff", "reopen_codec", "reopen_meta", "reopen_marker", "reopen_midpos"]
-OPS_Z = ["w_zero", "w_zero_omitted", "flush", "copy_null", "reopen_none", "reopen_codec"]
+         "reopen_none", "reopen_same", "reopen_diff", "reopen_codec", "reopen_meta", "reopen_marker", "reopen_midpos", "side_file"]
+OPS_Z = ["w_zero", "w_zero_omitted", "flush", "copy_null", "reopen_none", "reopen_codec", "side_file"]
 DEPTH = {"quick": 5, "thorough": 7}
 PREFIX = 2
 
@@ -162,6 +162,18 @@ class World:
             self._write({}, False)
         elif op == "flush":
             self.w.flush()
+        elif op == "side_file":
+            # another container file is produced in the same process while this Writer is alive (another Writer's whole
+            # lifetime falls inside this one's, possibly with records pending here): neither may disturb the other
+            fo2 = io.BytesIO()
+            recs2 = [{"a": 7000 + k, "b": "side", "c": None}, {"a": 1, "b": "x" * 30, "c": 2}] if self.kind == "S" else [{"n": None}]
+            try:
+                self.fa.writer(fo2, copy.deepcopy(S if self.kind == "S" else Z), copy.deepcopy(recs2), codec=self.codec, sync_marker=b"E" * 16)
+                got2 = list(self.fa.reader(io.BytesIO(fo2.getvalue())))
+            except Exception as e:
+                got2 = f"{type(e).__name__}: {e}"
+            if got2 != recs2:
+                self.problems.append(("side-file-differs", f"a second file written meanwhile reads back {got2!r}, written {recs2!r}"))
         elif op.startswith("copy_") or op.startswith("copyiter_"):
             data, recs = donor(self.fa, self.kind, op.split("_", 1)[1])
             blk = next(iter(self.fa.block_reader(io.BytesIO(data))))
